@@ -290,6 +290,19 @@ func (e *Executor) voteExtStateDiff(h int64, ref, n *Node) []*Violation {
 	return nil
 }
 
+// rejectDiag: input-level diagnosis of a rejected honest proposal — a validator whose vote is in the commit of the
+// previous height no longer has a record in the staking store of the rejecting node (it left the bonded set and its
+// unbonding matured within the two blocks during which the consensus engine still counts its votes).
+func (e *Executor) rejectDiag(n *Node, lc abci.CommitInfo) string {
+	ctx := e.C.Ctx(n)
+	for _, v := range lc.Votes {
+		if _, err := n.App.StakingKeeper.GetValidatorByConsAddr(ctx, v.Validator.Address); err != nil {
+			return ":commit-validator-record-removed"
+		}
+	}
+	return ""
+}
+
 func (e *Executor) crashAt(p *HeightPlan, pt CrashPoint) {
 	for _, ce := range p.Crashes {
 		if ce.Point == pt {
@@ -398,7 +411,7 @@ func (e *Executor) Step(p *HeightPlan) error {
 			return nil
 		}
 		if r.Status != abci.ResponseProcessProposal_ACCEPT {
-			e.report(&Violation{Property: "C17", Oracle: "coherence", Site: "ProcessProposal", Class: "honest-proposal-rejected", Height: h,
+			e.report(&Violation{Property: "C17", Oracle: "coherence", Site: "ProcessProposal", Class: "honest-proposal-rejected" + e.rejectDiag(n, lastCommit), Height: h,
 				Msg: fmt.Sprintf("height %d round %d: validator node %d rejected the proposal built by honest proposer node %d from a valid extended commit (absent=%v)", h, round, ni, p.Proposer, p.Absent)})
 			return nil
 		}
@@ -700,7 +713,7 @@ func (e *Executor) failedRound(h int64, round int32, t time.Time, hash []byte, f
 			return nil
 		}
 		if r.Status != abci.ResponseProcessProposal_ACCEPT {
-			e.report(&Violation{Property: "C17", Oracle: "coherence", Site: "ProcessProposal", Class: "honest-proposal-rejected", Height: h,
+			e.report(&Violation{Property: "C17", Oracle: "coherence", Site: "ProcessProposal", Class: "honest-proposal-rejected" + e.rejectDiag(n, lastCommit), Height: h,
 				Msg: fmt.Sprintf("height %d failed round %d: node %d rejected honest proposal of node %d", h, round, ni, fr.Proposer)})
 			return nil
 		}
